@@ -17,6 +17,10 @@ def run(ctx):
     found_s = replies_check.run(ctx, 200 if ctx.tier == "quick" else 20000) or found_s
     ctx.cov["rule"] += "; plus lock-step of the real async_sender (mock service) and detail::replies against their Lean models"
     found = found_s or CC.report(ctx, "C05", fails)
+    # the publish operation itself: real publish_send_op on a mock service, lock-step with Model/PubSend.lean, operation rules on its traces
+    import pubsend_check
+    found = pubsend_check.run(ctx, 1500 if ctx.tier == "quick" else 60000) or found
+    ctx.cov["rule"] += "; plus H-pubsend: scripts of async_send / async_wait_reply completions (ok, try_again, aborted; lost, undecodable, inadmissible and failing acknowledgements; cancellation) on the real publish_send_op QoS 1 and 2"
     report_broken_ties(ctx, found)
     if ctx.tier == "thorough" and not ctx.ties_broken:
         for m, msg in leanchecker(ctx.lean.get("modules", [])):
